@@ -45,9 +45,14 @@ def callers_of(crate, suffix, include_tests=False):
 
 
 def fns_nontest(crate, derive=False):
+    import sym
+
+    skip = {p for p, f in crate.fns.items() if sym.new_helper(crate, p, f)} if (sym.CANON and "helpers" in sym.MODE) else set()
     for p, fn in sorted(crate.fns.items()):
         if "hir" not in fn or fn.get("in_test_mod"):
             continue
         if not derive and fn["span"].endswith("!"):
             continue
+        if p in skip:
+            continue  # normal-form mode: a private single-call-site helper is read as part of its caller
         yield p, fn
